@@ -107,6 +107,8 @@ WORLDS = {
     "noseg-3d": dict(ndim=4, seg=False, scale=[1.0, 2.0, 1.0, 0.75], pos="single", extra=[], custom=True, ids="compute"),
     "noseg-2d-axes": dict(ndim=3, seg=False, scale=None, pos="axes", extra=[], custom=True, ids="compute"),
     "seg-2d": dict(ndim=3, seg=True, scale=None, pos="single", extra=["iou"], custom=True, ids="compute"),
+    # a label array whose dtype already equals the bit depth an exporter would choose
+    "seg-2d-u8": dict(ndim=3, seg=True, scale=None, pos="single", extra=["iou"], custom=False, ids="compute", dtype="uint8"),
     "seg-2d-core": dict(ndim=3, seg=True, scale=None, pos="single", extra=[], custom=False, ids="compute"),
     "seg-2d-aniso": dict(ndim=3, seg=True, scale=[1.0, 2.0, 0.75], pos="single", extra=["iou"], custom=False, ids="given"),
     "seg-2d-iso": dict(ndim=3, seg=True, scale=[1.0, 1.0, 1.0], pos="single", extra=["iou", "circularity"], custom=False, ids="compute"),
@@ -119,6 +121,9 @@ WORLDS = {
     # pre-built FeatureDict whose area values on the graph are stale (1.0): only an explicit
     # enable_features(["area"]) (recomputation) makes them trustworthy
     "seg-2d-fd-stale": dict(ndim=3, seg=True, scale=None, pos="single", extra=[], custom=False, ids="featuredict", stale=["area"]),
+    # pre-built FeatureDict whose position key is not the default "pos"
+    "seg-2d-fd-loc": dict(ndim=3, seg=True, scale=[1.0, 2.0, 0.75], pos="single", extra=[], custom=False, ids="featuredict",
+                          keys=dict(pos="loc")),
     "seg-3d": dict(ndim=4, seg=True, scale=None, pos="single", extra=["iou"], custom=False, ids="compute"),
     "seg-3d-aniso": dict(ndim=4, seg=True, scale=[1.0, 2.0, 1.0, 0.75], pos="single", extra=["iou"], custom=True, ids="compute"),
     "seg-3d-all": dict(ndim=4, seg=True, scale=[1.0, 2.0, 1.0, 0.75], pos="single",
@@ -237,21 +242,22 @@ def build(w, seed) -> SolutionTracks:
         pos_attr = ["y", "x"] if w["ndim"] == 3 else ["z", "y", "x"]
     if w["ids"] == "featuredict":
         axis_names = ["z", "y", "x"] if w["ndim"] == 4 else ["y", "x"]
-        feats = {"time": Time(), "pos": Position(axes=axis_names),
-                 "track_id": TrackletID(), "lineage_id": LineageID()}
+        k = w["keys"]
+        feats = {k["time"]: Time(), k["pos"]: Position(axes=axis_names),
+                 k["track"]: TrackletID(), k["lineage"]: LineageID()}
         if w["seg"]:
             # values must already be on the graph: compute them with a throw-away twin
-            twin = SolutionTracks(g.copy(), segmentation=seg.copy(), ndim=w["ndim"], scale=w["scale"])
+            twin = SolutionTracks(g.copy(), segmentation=seg.copy(), ndim=w["ndim"], scale=w["scale"], time_attr=k["time"])
             twin.enable_features(["iou"])
             for n in g.nodes:
-                g.nodes[n]["pos"] = twin.graph.nodes[n]["pos"]
+                g.nodes[n][k["pos"]] = twin.graph.nodes[n]["pos"]
                 g.nodes[n]["area"] = 1.0 if "area" in w.get("stale", ()) else twin.graph.nodes[n]["area"]
             for e in g.edges:
                 g.edges[e]["iou"] = twin.graph.edges[e]["iou"]
             feats["area"] = Area(ndim=w["ndim"])
             feats["iou"] = IoU()
-        fd = FeatureDict(features=feats, time_key="time", position_key="pos",
-                         tracklet_key="track_id", lineage_key="lineage_id")
+        fd = FeatureDict(features=feats, time_key=k["time"], position_key=k["pos"],
+                         tracklet_key=k["track"], lineage_key=k["lineage"])
         tracks = SolutionTracks(g, segmentation=seg, ndim=w["ndim"], scale=w["scale"], features=fd)
     else:
         k = w["keys"]
